@@ -44,7 +44,8 @@ def run(rep):
     rep.set('rule', 'an execution = one schedule of one scenario; distinct = distinct observable outcome per scenario; the delay clause is '
             'checked by comparing virtual delivery times of the default schedule with and without the listeners')
 
-    explore.explore(rep, 'family-d1', [s for s in fam if not s.get('timing_only')], 1, bases, 'checks.oracles:oracle_c05', budget_s=900)
+    explore.explore(rep, 'family-d1', [s for s in fam if not s.get('timing_only') and not s.get('balanced_listen')], 1, bases, 'checks.oracles:oracle_c05', budget_s=900)
+    explore.explore(rep, 'balanced-listeners-d1', [s for s in fam if s.get('balanced_listen')], 1, bases, 'checks.oracles:oracle_c05_balanced', budget_s=900)
     if quick and bases[0] != 'fifo':      # (the window in which the leaving ephemeral source hurts is narrow: always under 'fifo' as well)
         explore.explore(rep, 'eph-source-leaves-fifo-d1', [s for s in fam if s['name'].startswith('eph-source-leaves/')], 1, ['fifo'], 'checks.oracles:oracle_c05', budget_s=900)
 
@@ -56,7 +57,7 @@ def run(rep):
                     bases if not quick else sorted({bases[0], 'fifo'}), 'checks.oracles:oracle_c05', budget_s=900)      # (the window is narrow: always under 'fifo' as well)
 
     # "never delays the publisher": differential timing on the default schedule (ephemeral-rejoin changes the sink's inputs, so it is excluded)
-    items = [(s, b) for s in fam if not s['name'].startswith('ephemeral-rejoin') for b in bases]
+    items = [(s, b) for s in fam if not s['name'].startswith('ephemeral-rejoin') and not s.get('balanced_listen') for b in bases]      # (which branch a balancer picks among several ready ones depends on tie-breaks: no timing reference for those)
     ndiff = 0
 
     for name, base, t_with, t_bare in common.pmap(_timing, items):
